@@ -19,10 +19,11 @@ type SolicitMountedStream interface {
 
 // solicitMountedStream implements SolicitMountedStream.
 type solicitMountedStream struct {
-	ms  link.MountedStream
-	err error
+	ms link.MountedStream
 
+	// mu guards below fields
 	mu       sync.Mutex
+	err      error
 	accepted bool
 }
 
@@ -38,13 +39,12 @@ func NewSolicitMountedStreamWithErr(err error) SolicitMountedStream {
 
 // AcceptMountedStream claims ownership of the stream.
 func (s *solicitMountedStream) AcceptMountedStream() (link.MountedStream, bool, error) {
-	if s.err != nil {
-		return nil, false, s.err
-	}
-
 	s.mu.Lock()
 	defer s.mu.Unlock()
 
+	if s.err != nil {
+		return nil, false, s.err
+	}
 	if s.accepted {
 		return nil, true, nil
 	}
